@@ -806,6 +806,119 @@ theorem matchLoop_keeps_pre (fuel : Nat) : ∀ (e : Engine M) (sym : Nat) (cur :
           have := ih e4 sym b (resel e4 b) resel st t0 (by rw [hcfg2, hcfg1]; exact hal) hp2
           exact ⟨this.1, by rw [this.2, hcfg2, hcfg1]⟩
 
+/-- REPLACE LAST in the engine (`add_candle` of a 1m row carrying the last stored minute's timestamp) keeps `EPre` -/
+theorem replace_last_keeps_pre (e : Engine M) (sym : Nat) (c : Candle) (t0 ts : Int)
+    (hal : AlignedCfg e.cfg sym t0) (hp : EPre e sym t0 ts) (hc : c.ts = ts) :
+    EPre (addCandle e sym 1 c) sym t0 ts := by
+  obtain ⟨last, hlast, hlts⟩ := hp.last
+  have hts : c.ts = last.ts := by rw [hc, hlts]
+  have hst := StoreFrame.storeOf_addCandle e sym 1 c hp.hs
+  simp only [if_true] at hst
+  have hsp := hp.spaced
+  have hpre := hp.pre
+  generalize hS : storeOf e sym = S at *
+  have hne : S.short ≠ [] := by intro h; rw [h] at hlast; simp at hlast
+  have hpos : 0 < S.short.length := List.length_pos_iff.mpr hne
+  have hl : last = S.short[S.short.length - 1] := by
+    rw [List.getLast?_eq_getElem?, List.getElem?_eq_getElem (by omega)] at hlast
+    injection hlast with h; exact h.symm
+  have hlts' : last.ts = t0 + 60000 * ((S.short.length - 1 : Nat) : Int) := by rw [hl]; exact hsp _ (by omega)
+  have hc0 : ¬ c.ts = 0 := by
+    rw [hts, hlts']; have : (0 : Int) ≤ ((S.short.length - 1 : Nat) : Int) := Int.natCast_nonneg _
+    have := hal.1; omega
+  have hadd : Store.addCandle S.short c = S.short.dropLast ++ [c] := by
+    unfold Store.addCandle
+    have hl0 : ¬ last.ts = 0 := by rw [← hts]; exact hc0
+    have hngt : ¬ last.ts > last.ts := lt_irrefl _
+    simp only [hts, hl0, if_false, hlast, hngt, if_true]
+  rw [hadd] at hst
+  have hlen' : (S.short.dropLast ++ [c]).length = S.short.length := by simp; omega
+  refine ⟨by rw [StoreFrame.stores_length_addCandle]; exact hp.hs, ?_, ?_, ?_⟩
+  · rw [hst]
+    intro j hj
+    by_cases hjl : j < S.short.dropLast.length
+    · have : (S.short.dropLast ++ [c])[j] = S.short[j]'(by rw [← hlen']; exact hj) := by
+        rw [List.getElem_append_left hjl, List.getElem_dropLast]
+      show (S.short.dropLast ++ [c])[j].ts = _
+      rw [this]; exact hsp j _
+    · have hj' : j = S.short.length - 1 := by
+        have : S.short.dropLast.length = S.short.length - 1 := by simp
+        have hj2 : j < (S.short.dropLast ++ [c]).length := hj
+        rw [hlen'] at hj2; omega
+      have : (S.short.dropLast ++ [c])[j] = c := by
+        rw [List.getElem_append_right (by omega)]
+        simp
+      show (S.short.dropLast ++ [c])[j].ts = _
+      rw [this, hts, hlts', hj']
+  · rw [hst]; exact ⟨c, by simp, hc⟩
+  · intro m hm
+    rw [hst]
+    have hm' : m ∈ tfsRaw e.cfg sym := hm
+    exact pre_of_replace_last m S.short (longOf S m) c last (hal.2 m hm').1 hlast hts (hpre m hm')
+
+/-- the tail of a triggered liquidation check: publish the last stored minute, execute the forced close -/
+theorem liq_tail_keeps_pre (e e2 : Engine M) (sym id : Nat) (last : Candle) (t0 ts : Int)
+    (hal : AlignedCfg e.cfg sym t0) (hp : EPre e sym t0 ts) (hs1 : StoreFrame.SSame e e2)
+    (hl : (storeOf e2 sym).short.getLast? = some last) :
+    EPre (executeOrder u (updatePartialCandle e2 sym last) id) sym t0 ts ∧
+    (executeOrder u (updatePartialCandle e2 sym last) id).cfg = e.cfg := by
+  have hp2 : EPre e2 sym t0 ts := EPre.of_same hs1 hp
+  obtain ⟨l0, hl0, hl0ts⟩ := hp2.last
+  have hlast_eq : last = l0 := by rw [hl] at hl0; injection hl0
+  have hal2 : AlignedCfg e2.cfg sym t0 := by rw [hs1.2]; exact hal
+  obtain ⟨hp3, _⟩ := publish_keeps_pre e2 sym last t0 ts hal2 hp2 (by rw [hlast_eq]; exact hl0ts)
+  obtain ⟨hcfg3, _⟩ := updatePartialCandle_cfg_len e2 sym last
+  have hs4 := StoreFrame.executeOrder_ss u (updatePartialCandle e2 sym last) id
+  exact ⟨EPre.of_same hs4 hp3, by rw [hs4.2, hcfg3, hs1.2]⟩
+
+/-- the liquidation check keeps `EPre`: it does nothing, or fails, or publishes the last stored minute and executes
+    the forced close (whose hooks, whatever the strategy, do not write the store) -/
+theorem checkLiquidation_keeps_pre (e : Engine M) (sym : Nat) (c : Candle) (t0 ts : Int)
+    (hal : AlignedCfg e.cfg sym t0) (hp : EPre e sym t0 ts) :
+    EPre (checkLiquidation u e sym c) sym t0 ts ∧ (checkLiquidation u e sym c).cfg = e.cfg := by
+  unfold checkLiquidation
+  dsimp only
+  have hfail : ∀ (x : Engine M) (k : Err), StoreFrame.SSame e x → EPre (fail x k) sym t0 ts ∧ (fail x k).cfg = e.cfg := by
+    intro x k hx
+    have h2 := StoreFrame.SSame.trans hx (StoreFrame.fail_ss x k)
+    exact ⟨EPre.of_same h2 hp, h2.2⟩
+  repeat' split
+  all_goals first
+    | exact ⟨hp, rfl⟩
+    | (exact hfail _ _ ⟨rfl, rfl⟩)
+    | (rename_i w' h _ last hl
+       exact liq_tail_keeps_pre u e _ sym _ last t0 ts hal hp ⟨rfl, rfl⟩ hl)
+    | (rename_i w' h _ hl
+       exact hfail _ _ ⟨rfl, rfl⟩)
+
+/-- A WHOLE MINUTE of the normal simulator's matching keeps the pre-invariant, for every strategy: the matching loop,
+    REPLACE LAST with the whole minute, the price update and the liquidation check -/
+theorem simulateMinute_keeps_pre (fuel : Nat) (e : Engine M) (sym : Nat) (real : Candle) (t0 : Int)
+    (hal : AlignedCfg e.cfg sym t0) (hp : EPre e sym t0 real.ts) :
+    EPre (simulateMinute u fuel e sym real) sym t0 real.ts ∧ (simulateMinute u fuel e sym real).cfg = e.cfg := by
+  unfold simulateMinute
+  dsimp only
+  split
+  · exact ⟨hp, rfl⟩
+  · have h := matchLoop_keeps_pre u fuel e sym real
+      ((fun (e : Engine M) (c : Candle) => if (executingOrders e sym c).length > 1 then sortExecutionOrders e (executingOrders e sym c) [c] else executingOrders e sym c) e real)
+      (fun (e : Engine M) (c : Candle) => if (executingOrders e sym c).length > 1 then sortExecutionOrders e (executingOrders e sym c) [c] else executingOrders e sym c) false t0 hal hp
+    revert h
+    generalize matchLoop u fuel e sym real _ _ false = p
+    intro h
+    obtain ⟨e1, c'⟩ := p
+    dsimp only at h ⊢
+    obtain ⟨hp1, hcfg1⟩ := h
+    split
+    · exact ⟨hp1, hcfg1⟩
+    · have hal1 : AlignedCfg e1.cfg sym t0 := by rw [hcfg1]; exact hal
+      have hp2 := replace_last_keeps_pre e1 sym real t0 real.ts hal1 hp1 rfl
+      have hs3 : StoreFrame.SSame (addCandle e1 sym 1 real) (setCurrentPrice (addCandle e1 sym 1 real) sym real.c) := ⟨rfl, rfl⟩
+      have hp3 := EPre.of_same hs3 hp2
+      have hal3 : AlignedCfg (setCurrentPrice (addCandle e1 sym 1 real) sym real.c).cfg sym t0 := hal1
+      obtain ⟨hp4, hcfg4⟩ := checkLiquidation_keeps_pre u _ sym real t0 real.ts hal3 hp3
+      exact ⟨hp4, by rw [hcfg4]; exact hcfg1⟩
+
 end run
 
 end C07
